@@ -3,7 +3,7 @@
    (instance QS) and what the property theorems quantify over (instance RS). *)
 From Coq Require Import ZArith List Bool.
 Import ListNotations.
-From Manif Require Import Scalar Mat Consts Group SO2 SE2 SO3 SE3 SE23 SGal3 Rn Generic Api Algorithms Hist.
+From Manif Require Import Scalar Mat Consts Group SO2 SE2 SO3 SE3 SE23 SGal3 Rn Generic Api Algorithms Hist Ctor.
 
 Inductive gid : Type :=
 | GSO2 | GSE2 | GSO3 | GSE3 | GSE23 | GSGal3 | GRn (n : nat).
@@ -14,7 +14,7 @@ Inductive opcode : Type :=
 | OExp | OHat | ORjac | OLjac | ORjacinv | OLjacinv | OSmallAdj | OGenerator | OVee | OBracket
 | OInner | OInnerWeights | OWeightedNorm | OSqWeightedNorm | OTPlus | OTMinus | OTIsApprox | ORandom
 | OAliasGT | OAliasGG | OAliasG | OAliasT | OAliasGV | OAliasId
-| OHistory | OInterp | OPhi | OAverage | ODecasteljau | ODcPlan | OCast.
+| OHistory | OInterp | OPhi | OAverage | ODecasteljau | ODcPlan | OCast | OCtor.
 
 Section Run.
 Variable F : Sc.
@@ -138,6 +138,23 @@ Definition run_op (g : gid) (op : opcode) (mask : list bool) (iarg : Z) (args : 
                | DcBadAlloc => OutOfBounds (-1)
                end
   | OCast => Ok [cast_of g a0]
+  (* constructors (iarg < 10) and setters (iarg >= 10); mask bit 0: assertions enabled (the build mode) *)
+  | OCtor =>
+    let fin := fun (c : vec) => [c; mflat (g_transform G c)] in
+    if Z.ltb iarg 10 then
+      match (match g with
+             | GSO2 => so2_ctor iarg args | GSE2 => se2_ctor iarg args | GSO3 => so3_ctor iarg args
+             | GSE3 => se3_ctor iarg args | GSE23 => se23_ctor iarg args | GSGal3 => sg_ctor iarg args
+             | GRn _ => if Z.eqb iarg 0 then Some a0 else None end) with
+      | Some c => rmap fin (checked G m0 c)
+      | None => LogicError
+      end
+    else match g, iarg with
+      | GSO3, 10%Z => if m0 && negb (quat_ok eps a1) then InvalidArgument else Ok (fin (set_quat 0 a0 a1))
+      | GSE3, 10%Z => if m0 && negb (quat_ok eps a1) then InvalidArgument else Ok (fin (set_quat 3 a0 a1))
+      | GSE3, 11%Z => Ok (fin (vset a0 0 (firstn 3 a1)))
+      | _, _ => LogicError
+      end
   end.
 End Run.
 Arguments run_op {F}. Arguments group_of {F}.
